@@ -20,3 +20,4 @@ def check(ctx, prog):
     engine.rule_stack_writers(ctx, prog, thorough=thorough)
     optimize.rule_reset(ctx, prog)
     process.rule_marker_parent(ctx, prog)
+    engine.rule_wakeup(ctx, prog)
